@@ -8,6 +8,7 @@ from ..core import FUNC, call_attr, calls_in, const, dotted, is_const, kwarg, no
 from .c09 import waiter_rule, _stored_in_cancelled_table
 
 EXPLANATION = [
+    "C16.gone-connection: Connection.cancel_on_disconnection cancels at once when the connection is no longer registered with its device (the 'disconnection' event it would wait for has already been emitted), and Device.disconnect refuses a link that is in none of the device's tables before sending anything.",
     'C16.settle-guard: every set_result / set_exception on a future kept in a channel attribute is under `not <future>.done()`, unless every coroutine waiting on that attribute clears it in a finally (a waiter that timed out leaves a cancelled future behind; settling it raises InvalidStateError in the middle of the link teardown).',
     'C16.uncalled-predicate: done / cancelled / is_set / locked / empty used as truth values are called (a bound method is always true).',
     'C16.dead-default-check: no value obtained by indexing a defaultdict attribute is afterwards tested for absence (`is None` / falsy): such a test is dead and the lookup has created the entry (drain() would wait on a fresh event nobody sets).',
@@ -578,7 +579,31 @@ def settle_guard_rule(ctx):
     settle_guard(ctx, 'C16.settle-guard', ['bumble.l2cap.ClassicChannel', 'bumble.l2cap.LeCreditBasedChannel'])
 
 
+def gone_connection(ctx):
+    """An operation started on a connection that has already been disconnected can never be ended by that connection's
+    'disconnection' event: it has to end at once.  (a) Connection.cancel_on_disconnection -- behind every
+    "send the command, then wait for the completion event" procedure -- tests that the connection is still registered with
+    its device and cancels the awaitable when it is not; (b) Device.disconnect refuses a link that is in none of the
+    device's link tables before it registers its listeners."""
+    R, p = ctx.r, ctx.p
+    rule = 'C16.gone-connection'
+    cod = p.find('bumble.device.Connection.cancel_on_disconnection')
+    dis = p.find('bumble.device.Device.disconnect')
+    if cod is None or dis is None:
+        R.bad(rule, 'bumble.device.Connection.cancel_on_disconnection / Device.disconnect', 'anchor missing')
+        return
+    tests = [n for n in walk_local(cod) if isinstance(n, ast.If) and 'self.device.connections' in norm(n.test) and 'self' in norm(n.test)]
+    cancels = [c for t in tests for c in calls_in(t) if call_attr(c) in ('cancel', 'set_exception')]
+    R.check(bool(tests) and bool(cancels), rule, 'bumble.device.Connection.cancel_on_disconnection | already disconnected', 'an awaitable tied to a connection that is no longer registered is cancelled at once',
+            'cancel_on_disconnection only listens for a future `disconnection` event: when the Disconnection Complete was processed between the Command Status and this call, the listener is attached to a dead connection and the caller (get_remote_le_features, encrypt, authenticate, ...) waits for ever', p.loc(cod))
+    first_reg = min([c.lineno for c in calls_in(dis) if call_attr(c) in ('on', 'once') and (dotted(c.func.value) or '') == 'connection'] or [10 ** 9])
+    refuse = [n for n in walk_local(dis) if isinstance(n, ast.If) and n.lineno < first_reg and any(isinstance(x, ast.Raise) for x in n.body) and all(t in norm(n.test) for t in ('self.connections', 'self.sco_links', 'self.cis_links'))]
+    R.check(bool(refuse), rule, 'bumble.device.Device.disconnect | link already gone', 'a link found in none of the device tables is refused before anything is sent',
+            'Device.disconnect sends HCI_Disconnect for a link the host no longer knows: the controller\'s failure report for the unknown handle is dropped by the host and disconnect() waits for ever', p.loc(dis))
+
+
 RULES = [
+    ('C16.gone-connection', gone_connection),
     ('C16.settle-guard', settle_guard_rule),
     ('C16.uncalled-predicate', uncalled_predicate_rule),
     ('C16.dead-default-check', dead_default_check_rule),
